@@ -1,1 +1,54 @@
 //! Differential-driver access to crate-private items (group: cache). See /verif/DESIGN.md.
+//!
+//! Wrappers only: every method forwards to the production item (`split_for_parallel`, the
+//! `ParallelStateView` database interface the speculative workers read through, and the
+//! `ParallelStateCommit` the ordered commit loop writes through). No production logic is copied.
+#![allow(missing_docs, missing_debug_implementations, unreachable_pub)]
+
+use crate::parallel_state::{ParallelState, ParallelStateCommit, ParallelStateView};
+use revm::{DatabaseCommit, DatabaseRef};
+use revm_primitives::{Address, B256, U256};
+use revm_state::{AccountInfo, Bytecode, EvmState};
+
+/// The worker-side handle of `ParallelState::split_for_parallel` (shareable between threads).
+pub struct ViewV<'a, DB>(ParallelStateView<'a, DB>);
+
+impl<DB> Clone for ViewV<'_, DB> {
+    fn clone(&self) -> Self {
+        Self(self.0)
+    }
+}
+
+/// The commit-side handle of `ParallelState::split_for_parallel`.
+pub struct CommitV<'a, DB>(ParallelStateCommit<'a, DB>);
+
+/// `ParallelState::split_for_parallel` (the split the scheduler runs a block under).
+pub fn split<DB: DatabaseRef>(state: &mut ParallelState<DB>) -> (ViewV<'_, DB>, CommitV<'_, DB>) {
+    let (view, commit) = state.split_for_parallel();
+    (ViewV(view), CommitV(commit))
+}
+
+impl<DB: DatabaseRef> ViewV<'_, DB> {
+    pub fn basic(&self, address: Address) -> Result<Option<AccountInfo>, DB::Error> {
+        self.0.basic_ref(address)
+    }
+    pub fn storage(&self, address: Address, index: U256) -> Result<U256, DB::Error> {
+        self.0.storage_ref(address, index)
+    }
+    pub fn code_by_hash(&self, code_hash: B256) -> Result<Bytecode, DB::Error> {
+        self.0.code_by_hash_ref(code_hash)
+    }
+}
+
+impl<DB: DatabaseRef> CommitV<'_, DB> {
+    /// `<ParallelStateCommit as DatabaseCommit>::commit` (what `OrderedCommit` calls per tx).
+    pub fn commit(&mut self, evm_state: EvmState) {
+        self.0.commit(evm_state)
+    }
+    pub fn basic(&self, address: Address) -> Result<Option<AccountInfo>, DB::Error> {
+        self.0.basic_ref(address)
+    }
+    pub fn storage(&self, address: Address, index: U256) -> Result<U256, DB::Error> {
+        self.0.storage_ref(address, index)
+    }
+}
